@@ -837,6 +837,12 @@ pub fn stream_cases(seed: u64, thorough: bool) -> Vec<Case> {
         c.std("byte_len", "brc20_deploy", json!([PK, "0x00", null, TS, h32(0), 0, format!("c09_bl_{}", bl), bl, h32(0)]));
         c.std("byte_len", "brc20_call", json!([PK, "$TOOL", null, hx0(&cd::sload(U256::from(7u64))), null, TS, h32(0), 0, format!("c09_blc_{}", bl), bl, h32(0)]));
     }
+    // 7. (thorough) the two unrepaired findings, demonstrated: each costs the watchdog time and a worker
+    if thorough {
+        c.std("known_f15_mine_max", "brc20_mine", json!([u64::MAX, TS]));
+        let spin = corpus.iter().find(|(k, _)| k == "spin_balance").map(|(_, b)| b.clone()).unwrap_or_default();
+        c.std("known_f18_spin_unbounded_gas", "brc20_deploy", json!([PK, hx0(&spin), null, TS, h32(0), 0, "c09_f18", u64::MAX, h32(0)]));
+    }
     c.v
 }
 
@@ -932,4 +938,585 @@ pub fn stream_main(args: &[String], out: &Path, seed: u64, thorough: bool) -> R<
     Ok(())
 }
 
-pub fn run(_out: &Path, _seed: u64, _thorough: bool) -> R<()> { Ok(()) }
+
+// ------------------------------------------------------------------------------------------
+// (a) the component tie: cases for Model/Tie09.v
+// ------------------------------------------------------------------------------------------
+
+/// dev profile: overflow checks on (mode 0 = Checked); release profile: off (mode 1 = Wrapping)
+pub fn overflow_checks_on() -> bool {
+    let prev = std::panic::take_hook();
+    std::panic::set_hook(Box::new(|_| {}));
+    let r = catch_unwind(|| { let x: u64 = std::hint::black_box(u64::MAX); std::hint::black_box(x + std::hint::black_box(1)) }).is_err();
+    std::panic::set_hook(prev);
+    r
+}
+
+pub struct Tie {
+    pub base: u64,
+    pub terms: Vec<String>,
+    pub jsonl: Vec<Value>,
+    pub counters: BTreeMap<String, u64>,
+    pub distinct: std::collections::BTreeSet<String>,
+    pub notes: Vec<String>,
+}
+impl Tie {
+    fn add(&mut self, kind: &str, term: impl FnOnce(u64) -> String, j: Value) {
+        let id = self.base + self.terms.len() as u64;
+        self.terms.push(term(id));
+        let key = format!("{}:{}", kind, j);
+        if key.len() > kind.len() + 3 { self.distinct.insert(sha256::digest(key)); }
+        let mut j = j;
+        j["id"] = json!(id);
+        j["kind"] = json!(kind);
+        self.jsonl.push(j);
+        *self.counters.entry(kind.to_string()).or_insert(0) += 1;
+    }
+}
+
+fn cbytes(b: &[u8]) -> String { cf::bytes(b) }
+fn cstr(s: &str) -> String { cf::bytes(s.as_bytes()) }
+fn copt_str(s: &Option<String>) -> String { match s { Some(x) => format!("(Some {})", cstr(x)), None => "None".into() } }
+fn cobs(o: &PcObs) -> String {
+    match o {
+        PcObs::Out(w) => format!("(OOut {})", cf::list(w, |x| x.clone())),
+        PcObs::Err => "OErr".into(), PcObs::Oog => "OOog".into(), PcObs::Panic => "OPanic".into(),
+    }
+}
+fn key_n(k: &[u8; 32]) -> String { U256::from_be_bytes(*k).to_string() }
+
+#[derive(Clone, Debug, PartialEq)]
+pub enum PcObs { Out(Vec<String>), Err, Oog, Panic }
+
+/// classify the answer of eth_call / eth_callMany with a single call to a precompile
+fn observe_pc(o: &Out, decode: impl Fn(&[u8]) -> Option<Vec<String>>) -> Option<PcObs> {
+    match o {
+        Out::Ok(v) => {
+            let s = match v { Value::String(s) => s.clone(), Value::Array(a) => a.get(0)?.as_str()?.to_string(), _ => return None };
+            let bytes = hex::decode(s.trim_start_matches("0x")).ok()?;
+            Some(PcObs::Out(decode(&bytes)?))
+        }
+        Out::Err(_, m) if m.contains("PrecompileError") => Some(PcObs::Err),
+        Out::Err(_, m) if m.contains("OutOfGas") => Some(PcObs::Oog),
+        Out::Panic(_) => Some(PcObs::Panic),
+        _ => None,
+    }
+}
+
+fn intrinsic_gas(data: &[u8]) -> u64 { 21000 + data.iter().map(|b| if *b == 0 { 4 } else { 16 }).sum::<u64>() }
+
+/// a Bitcoin transaction the way the model sees it
+#[derive(Clone)]
+struct MTx { ins: Vec<([u8; 32], u32)>, outs: Vec<(u64, Vec<u8>)> }
+impl MTx {
+    fn bytes(&self) -> Vec<u8> { btc_tx(&self.ins, &self.outs) }
+    fn coq(&self) -> String {
+        let ins = cf::list(&self.ins, |(t, v)| format!("({}, {}, {})", key_n(&rev32(t)), v, cf::boolean(t.iter().all(|b| *b == 0) && *v == u32::MAX)));
+        let outs = cf::list(&self.outs, |(val, sc)| format!("({}, {})", val, sc.len()));
+        format!("{{| tx_ins := {}; tx_outs := {} |}}", ins, outs)
+    }
+}
+
+fn db_write_sections(evs: &[sim::Ev]) -> u64 {
+    evs.iter().filter(|e| matches!(e, sim::Ev::Lock { write: true, acquire: true, ty, file, .. } if ty.contains("Brc20ProgDatabase") && file.ends_with("engine.rs"))).count() as u64
+}
+
+pub fn tie_cases(seed: u64, thorough: bool, base: u64) -> R<Tie> {
+    let mut t = Tie { base, terms: vec![], jsonl: vec![], counters: BTreeMap::new(), distinct: Default::default(), notes: vec![] };
+    let mut rng = Rng::new(seed ^ 0x7109);
+    let mode: u64 = if overflow_checks_on() { 0 } else { 1 };
+    t.notes.push(format!("overflow checks {}", if mode == 0 { "on (Checked)" } else { "off (Wrapping)" }));
+
+    // ---- utf8_valid vs std::str::from_utf8 ----
+    let mut byte_strings: Vec<Vec<u8>> = tag_strings().into_iter().map(|s| s.into_bytes()).collect();
+    let edge: [u8; 23] = [0x00, 0x7f, 0x80, 0x8f, 0x90, 0x9f, 0xa0, 0xbf, 0xc0, 0xc1, 0xc2, 0xdf, 0xe0, 0xe1, 0xec, 0xed, 0xee, 0xef, 0xf0, 0xf1, 0xf3, 0xf4, 0xf5];
+    for a in edge { byte_strings.push(vec![a]); for b in edge { byte_strings.push(vec![a, b]); } }
+    let edge3: [u8; 13] = [0x7f, 0x80, 0x8f, 0x90, 0x9f, 0xa0, 0xbf, 0xc2, 0xe0, 0xed, 0xef, 0xf0, 0xf4];
+    for a in edge3 { for b in edge3 { for c in edge3 { byte_strings.push(vec![a, b, c]); } } }
+    let edge4: [u8; 8] = [0x80, 0x8f, 0x90, 0xbf, 0xe0, 0xf0, 0xf4, 0x41];
+    for a in edge4 { for b in edge4 { for c in edge4 { for d in edge4 { byte_strings.push(vec![a, b, c, d]); } } } }
+    for _ in 0..(if thorough { 4000 } else { 600 }) { let n = rng.range(1, 7) as usize; byte_strings.push(random_bytes(&mut rng, n)); }
+    for s in ["0x\u{e9}", "0x\u{20ac}", "0x\u{1f600}"] { let mut b = s.as_bytes().to_vec(); byte_strings.push(b.clone()); b.truncate(b.len() - 1); byte_strings.push(b.clone()); b.remove(2); byte_strings.push(b); }
+    for b in &byte_strings {
+        let valid = std::str::from_utf8(b).is_ok();
+        t.add("utf8", |id| format!("CUtf8 {} {} {}", id, cbytes(b), cf::boolean(valid)), json!({"bytes": hex::encode(b), "valid": valid}));
+    }
+
+    // ---- from_str_radix ----
+    let mut nums: Vec<String> = tag_strings();
+    for s in tag_strings() { if let Some(r) = s.strip_prefix("0x") { nums.push(r.to_string()); } }
+    for c in 0u8..128 { nums.push((c as char).to_string()); }
+    let alpha = ['+', '-', '0', '9', 'a', 'f', 'A', 'F', 'g', 'G', 'z', 'Z', '_', ' ', 'x'];
+    for a in alpha { for b in alpha { nums.push(format!("{}{}", a, b)); for c in ['0', 'f', '+'] { nums.push(format!("{}{}{}", a, b, c)); } } }
+    for k in [u64::MAX as u128 - 1, u64::MAX as u128, u64::MAX as u128 + 1, u64::MAX as u128 * 10, (u64::MAX as u128) * 16 + 15, 1u128 << 63, (1u128 << 64) + 5, 1u128 << 100] {
+        for s in [format!("{}", k), format!("{:x}", k), format!("{:X}", k), format!("+{}", k), format!("000{:x}", k), format!("-{}", k)] { nums.push(s); }
+    }
+    for _ in 0..(if thorough { 3000 } else { 500 }) {
+        let n = rng.range(1, 24) as usize;
+        let hexy = rng.chance(1, 2);
+        nums.push((0..n).map(|_| { let d = rng.below(if hexy { 16 } else { 10 }) as u32; std::char::from_digit(d, 16).unwrap() }).collect());
+    }
+    for s in &nums { for radix in [10u32, 16] {
+        let out = u64::from_str_radix(s, radix).ok();
+        t.add("radix", |id| format!("CRadix {} {} {} {}", id, radix, cstr(s), cf::opt(&out, |x| x.to_string())), json!({"s": s, "radix": radix, "out": out}));
+    } }
+
+    // ---- select_bytes ----
+    {
+        let raws: Vec<Option<Option<String>>> = vec![None, Some(None), Some(Some("".into())), Some(Some("0x".into())), Some(Some("0x00".into())), Some(Some("zz".into())), Some(Some("0x0".into())), Some(Some("\u{e9}".into()))];
+        let mut b64s: Vec<Option<Option<String>>> = vec![None, Some(None)];
+        for s in ["", "=", "A", "AA", "AAAA", "AQ", "Ag", "Aw", "BA", "/w", "!!", "AQD/", "AA==", "AQD//w", "Av///w", "AijEsvYgBA", "\u{e9}"] { b64s.push(Some(Some(s.to_string()))); }
+        for p in 0u8..=5 { b64s.push(Some(Some(BASE64_STANDARD_NO_PAD.encode([p, 1, 2, 3, 0, 0, 0xff, 4])))); }
+        for r in &raws { for b in &b64s {
+            let rr = r.as_ref().map(|o| match o { Some(s) => vh::RawBytes::new(s.clone()), None => vh::RawBytes::empty() });
+            let bb = b.as_ref().map(|o| match o { Some(s) => vh::Base64Bytes::new(s.clone()), None => vh::Base64Bytes::empty() });
+            let c = match catch_unwind(AssertUnwindSafe(|| vh::select_bytes(&rr, &bb).map(|_| ()).map_err(|_| ()))) { Ok(Ok(())) => 0, Ok(Err(())) => 1, Err(_) => 2 };
+            let co = |o: &Option<Option<String>>| match o { None => "None".to_string(), Some(None) => "(Some None)".to_string(), Some(Some(s)) => format!("(Some (Some {}))", cstr(s)) };
+            t.add("select", |id| format!("CSelect {} {} {} {}", id, co(r), co(b), c), json!({"raw": r, "b64": b, "class": c}));
+        } }
+    }
+
+    // ---- through the method table: one standard engine ----
+    vh::set_lock_recording(true);
+    let mut e = Eng::standard()?;
+    let h = e.height().map_err(|m| m)?;
+    let (latest, next) = (h, h + 1);
+    let mut tags = tag_strings();
+    for x in [h.saturating_sub(1), h, h + 1, h + 2] { tags.push(format!("{}", x)); tags.push(format!("0x{:x}", x)); tags.push(format!("0X{:x}", x)); tags.push(format!("+{}", x)); tags.push(format!("0x+{:x}", x)); tags.push(format!("0x{:X}", x)); tags.push(format!("0x000{:x}", x)); }
+    for s in &tags {
+        let o = e.rpc("eth_getBlockByNumber", json!([s, false]));
+        let (code, val) = match &o {
+            Out::Ok(b) => (0u64, b["number"].as_str().and_then(|x| u64::from_str_radix(x.trim_start_matches("0x"), 16).ok()).unwrap_or(u64::MAX)),
+            Out::Err(_, m) if m.contains("Block not found") => (1, 0),
+            Out::Err(_, m) if m.contains("Invalid block number") => (2, 0),
+            Out::Panic(_) => (3, 0),
+            other => { t.notes.push(format!("eth_getBlockByNumber({:?}) answered {}", s, other.brief())); continue; }
+        };
+        t.add("parse", |id| format!("CParse {} {} {} {} {} {}", id, latest, next, cstr(s), code, val), json!({"s": s, "latest": latest, "out": code, "val": val}));
+        let o = e.rpc("eth_getBlockTransactionCountByNumber", json!([s]));
+        if o.class() <= 2 { t.add("txcount", |id| format!("CTxCount {} {} {} {} {} {}", id, mode, latest, next, cstr(s), o.class()), json!({"s": s, "class": o.class(), "brief": o.brief()})); }
+    }
+    {
+        let ends: Vec<Option<String>> = [None, Some("latest"), Some("pending"), Some("earliest"), Some("0x0"), Some("0x1"), Some("0x5"), Some("0x6"), Some("0x7"), Some("garbage"), Some("0x"), Some("\u{e9}"), Some("0x\u{e9}"),
+            Some("0xffffffffffffffff"), Some("0xfffffffffffffffe"), Some("0xfffffffffffffffa"), Some("0xfffffffffffffff9"), Some("18446744073709551615"), Some("0x10000000000000000"), Some("$H"), Some("$H-1"), Some("$H-5"), Some("$H-6"), Some("$H+1"), Some("$H+5"), Some("$H+6")]
+            .iter().map(|o| o.map(|s| if let Some(r) = s.strip_prefix("$H") { let d: i64 = if r.is_empty() { 0 } else { r.parse().unwrap() }; format!("0x{:x}", (h as i64 + d) as u64) } else { s.to_string() })).collect();
+        for f in &ends { for to in &ends {
+            let mut flt = serde_json::Map::new();
+            if let Some(x) = f { flt.insert("fromBlock".into(), json!(x)); }
+            if let Some(x) = to { flt.insert("toBlock".into(), json!(x)); }
+            let o = e.rpc("eth_getLogs", json!([Value::Object(flt)]));
+            if o.class() <= 2 { t.add("logs", |id| format!("CLogs {} {} {} {} {} {} {}", id, mode, latest, next, copt_str(f), copt_str(to), o.class()), json!({"from": f, "to": to, "class": o.class(), "brief": o.brief()})); }
+        } }
+    }
+    // eth_estimateGas: the answer and the number of executions
+    {
+        let mut calls: Vec<Value> = vec![json!({"data": "0x"}), json!({"data": hx0(&sim::child_init())}), json!({"to": e.tool, "data": hx0(&cd::sload(U256::from(7u64)))}),
+            json!({"to": e.tool, "data": hx0(&cd::log(&[U256::from(1u64)], U256::from(2u64)))}), json!({"to": e.tool, "data": hx0(&cd::sstore(U256::from(9u64), U256::from(1u64)))}),
+            json!({"to": e.tool, "data": hx0(&cd::create())}), json!({"to": e.tool, "data": hx0(&cd::context())}), json!({"to": PC_OPRETURN, "data": hx0(&getTxIdCall::new(()).abi_encode())}),
+            json!({"to": PC_LOCKED, "data": hx0(&getLockedPkscriptCall::new((Bytes::from(hex::decode(PK).unwrap()), U256::from(6u64))).abi_encode())}), json!({"data": hx0(&sim::multitool_init())})];
+        for _ in 0..(if thorough { 60 } else { 14 }) { let n = rng.range(0, 1500) as usize; calls.push(json!({"to": format!("0x{}", "77".repeat(20)), "data": hx0(&random_bytes(&mut rng, n))})); }
+        for c in calls {
+            let _ = e.inst.events();
+            let o = e.rpc("eth_estimateGas", json!([c, null]));
+            let reads = db_write_sections(&e.inst.events());
+            if let Out::Ok(Value::String(g)) = &o {
+                let g = u64::from_str_radix(g.trim_start_matches("0x"), 16).unwrap_or(0);
+                t.add("bisect", |id| format!("CBisect {} {} {} {} {}", id, sim::CALL_GAS_LIMIT, vh::GAS_PER_BYTE, g, reads), json!({"call": brief_params(&c), "gas": g, "reads": reads}));
+            }
+        }
+    }
+    // brc20_mine on the standard engine: closed block, then an open one
+    for count in [0u64, 1, 2, 3, 7] {
+        let nh = e.height().map_err(|m| m)? + 1;
+        let _ = e.inst.events();
+        let o = e.rpc("brc20_mine", json!([count, TS]));
+        let calls = db_write_sections(&e.inst.events());
+        t.add("mine", |id| format!("CMine {} {} false false {} {} {} {}", id, mode, nh, count, o.class(), calls), json!({"empty": false, "open": false, "next": nh, "count": count, "class": o.class(), "calls": calls}));
+    }
+    {
+        let nh = e.height().map_err(|m| m)? + 1;
+        let _ = e.rpc("brc20_deploy", json!([PK, "0x00", null, TS, h32(0), 0, "c09_tie_open", 1000, h32(0)]));
+        for count in [0u64, 1, 5] {
+            let _ = e.inst.events();
+            let o = e.rpc("brc20_mine", json!([count, TS]));
+            let calls = db_write_sections(&e.inst.events());
+            t.add("mine", |id| format!("CMine {} {} false true {} {} {} {}", id, mode, nh, count, o.class(), calls), json!({"empty": false, "open": true, "next": nh, "count": count, "class": o.class(), "calls": calls}));
+        }
+        let _ = e.rpc("brc20_clearCaches", json!([]));
+    }
+
+    // ---- the precompiles ----
+    let pk = hex::decode(PK).unwrap();
+    let dec_words = |n: usize| move |b: &[u8]| -> Option<Vec<String>> { if b.len() >= 32 * n { Some(vec![]) } else { None } };
+    // getLockedPkscript
+    {
+        let mut inputs: Vec<(Option<(Vec<u8>, U256)>, Vec<u8>)> = vec![];
+        for len in [0usize, 1, 2, 3, 33, 34, 35, 75, 76, 255, 256, 520, 521, 10000] { for c in [0u64, 1, 16, 17, 127, 128, 255, 256, 32767, 32768, 65535, 65536] {
+            let p = vec![0x51u8; len];
+            inputs.push((Some((p.clone(), U256::from(c))), getLockedPkscriptCall::new((Bytes::from(p), U256::from(c))).abi_encode()));
+        } }
+        for c in [U256::from(u64::MAX), U256::from(1u64) << 64, (U256::from(1u64) << 64) + U256::from(5u64), U256::MAX] {
+            inputs.push((Some((pk.clone(), c)), getLockedPkscriptCall::new((Bytes::from(pk.clone()), c)).abi_encode()));
+            inputs.push((Some((vec![0x51], c)), getLockedPkscriptCall::new((Bytes::from(vec![0x51u8]), c)).abi_encode()));
+        }
+        let good = getLockedPkscriptCall::new((Bytes::from(pk.clone()), U256::from(6u64))).abi_encode();
+        for cut in [0usize, 3, 4, 36, 68, 100, good.len() - 1] { inputs.push((None, good[..cut].to_vec())); }
+        for (dec, data) in inputs {
+            // the decode oracle: the same library call the precompile makes
+            let lib = getLockedPkscriptCall::abi_decode(&data).ok().map(|c| (c.pkscript.to_vec(), c.lock_block_count));
+            if dec.is_some() && lib != dec { t.notes.push(format!("getLockedPkscript decode oracle differs from the construction for {}", hx0(&data))); }
+            let o = e.rpc("eth_call", json!([{"to": PC_LOCKED, "data": hx0(&data)}, null]));
+            let Some(obs) = observe_pc(&o, |_| Some(vec![])) else { t.notes.push(format!("getLockedPkscript: unclassified answer {}", o.brief())); continue };
+            let gas = sim::CALL_GAS_LIMIT - intrinsic_gas(&data);
+            let d = match &lib { Some((p, n)) => format!("(Some ({}, {}))", cbytes(p), n), None => "None".into() };
+            t.add("locked", |id| format!("CLocked {} {} {} {} {}", id, mode, gas, d, cobs(&obs)), json!({"data": hx0(&data), "obs": format!("{:?}", obs)}));
+            if obs == PcObs::Panic { e = Eng::standard()?; }
+        }
+    }
+    // getTxDetails / getLastSatLocation with every transaction overridden
+    {
+        let k1 = [0x11u8; 32];
+        let (p1, p2, p3) = ([0xaau8; 32], [0xabu8; 32], [0xacu8; 32]);
+        let sc = vec![0x51u8];
+        let grand = [0xbbu8; 32];
+        let prev_small = MTx { ins: vec![(grand, 0)], outs: vec![(1000, sc.clone()), (2000, vec![0x52, 0x53])] };
+        let prev_max = MTx { ins: vec![(grand, 0)], outs: vec![(u64::MAX, sc.clone())] };
+        let prev_big = MTx { ins: vec![(grand, 0)], outs: vec![(10_000_000, sc.clone()), (7, sc.clone())] };
+        let null_prev = ([0u8; 32], u32::MAX);
+        let mut scen: Vec<(&str, MTx, Vec<([u8; 32], MTx)>)> = vec![
+            ("plain", MTx { ins: vec![(p1, 0), (p2, 1)], outs: vec![(600, sc.clone()), (900, vec![0x52, 0x53])] }, vec![(p1, prev_small.clone()), (p2, prev_small.clone())]),
+            ("three_in", MTx { ins: vec![(p1, 0), (p2, 1), (p3, 0)], outs: vec![(2500, sc.clone()), (400, sc.clone()), (100, sc.clone())] }, vec![(p1, prev_small.clone()), (p2, prev_small.clone()), (p3, prev_small.clone())]),
+            ("bigouts", MTx { ins: vec![(p1, 0)], outs: vec![(u64::MAX, sc.clone()), (5, sc.clone()), (u64::MAX, sc.clone())] }, vec![(p1, prev_small.clone())]),
+            ("bigouts_bigin", MTx { ins: vec![(p1, 0)], outs: vec![(u64::MAX, sc.clone()), (5, sc.clone()), (u64::MAX, sc.clone())] }, vec![(p1, prev_max.clone())]),
+            ("vin_sum", MTx { ins: vec![(p1, 0), (p2, 0)], outs: vec![(3000, sc.clone())] }, vec![(p1, prev_small.clone()), (p2, prev_max.clone())]),
+            ("vin_max_first", MTx { ins: vec![(p1, 0), (p2, 0)], outs: vec![(3000, sc.clone())] }, vec![(p1, prev_max.clone()), (p2, prev_max.clone())]),
+            ("coinbase", MTx { ins: vec![null_prev], outs: vec![(50, sc.clone())] }, vec![]),
+            ("null_second", MTx { ins: vec![(p1, 0), null_prev], outs: vec![(5000, sc.clone())] }, vec![(p1, prev_small.clone())]),
+            ("null_first", MTx { ins: vec![null_prev, (p1, 0)], outs: vec![(500, sc.clone())] }, vec![(p1, prev_small.clone())]),
+            ("no_out", MTx { ins: vec![(p1, 0)], outs: vec![] }, vec![(p1, prev_small.clone())]),
+            ("prev_vout_oob", MTx { ins: vec![(p1, 7)], outs: vec![(5, sc.clone())] }, vec![(p1, prev_small.clone())]),
+            ("prev_vout_max", MTx { ins: vec![(p1, u32::MAX - 1)], outs: vec![(5, sc.clone())] }, vec![(p1, prev_small.clone())]),
+            ("insufficient", MTx { ins: vec![(p1, 0)], outs: vec![(5000, sc.clone())] }, vec![(p1, prev_small.clone())]),
+        ];
+        for k in [47usize, 48, 49, 50, 120] {
+            scen.push((Box::leak(format!("many_in_{}", k).into_boxed_str()), MTx { ins: (0..k).map(|_| (p1, 0u32)).collect(), outs: vec![(k as u64 * 900, sc.clone()), (1, sc.clone())] }, vec![(p1, prev_big.clone())]));
+        }
+        scen.push(("many_out", MTx { ins: vec![(p1, 0)], outs: (0..400).map(|i| (i as u64, sc.clone())).collect() }, vec![(p1, prev_big.clone())]));
+        for (name, main, prevs) in &scen {
+            let mut txs: Vec<([u8; 32], Vec<u8>)> = vec![(k1, main.bytes())];
+            let mut coq_txs = vec![format!("({}, {})", key_n(&k1), main.coq())];
+            for (k, ptx) in prevs { txs.push((rev32(k), ptx.bytes())); coq_txs.push(format!("({}, {})", key_n(&rev32(k)), ptx.coq())); }
+            let over = pd(&[], &txs);
+            let coq_txs = format!("[{}]", coq_txs.join("; "));
+            let bn = e.height().map_err(|m| m)? + 1;
+            // getTxDetails
+            let data = getTxDetailsCall::new((B256::from(k1),)).abi_encode();
+            let o = e.rpc("eth_callMany", json!([[{"to": PC_TXDETAILS, "data": hx0(&data)}], null, over.clone()]));
+            let dec = |b: &[u8]| getTxDetailsCall::abi_decode_returns(b).ok().map(|r| {
+                let mut w = vec![r.block_height.to_string(), r.vin_txids.len().to_string()];
+                w.extend(r.vin_vouts.iter().map(|x| x.to_string())); w.extend(r.vin_values.iter().map(|x| x.to_string())); w.extend(r.vout_values.iter().map(|x| x.to_string())); w });
+            match observe_pc(&o, dec) {
+                Some(obs) => {
+                    let gas = sim::CALL_GAS_LIMIT - intrinsic_gas(&data);
+                    t.add("details", |id| format!("CDetails {} {} {} {} (Some {}) {} {}", id, mode, gas, bn, key_n(&k1), coq_txs, cobs(&obs)), json!({"scenario": name, "obs": format!("{:?}", obs)}));
+                    if obs == PcObs::Panic { e = Eng::standard()?; }
+                }
+                None => t.notes.push(format!("getTxDetails {}: unclassified answer {}", name, o.brief())),
+            }
+            // getLastSatLocation over a grid of (vout, sat)
+            let n_out = main.outs.len() as u64;
+            let mut grid: Vec<(U256, U256)> = vec![];
+            for vout in [0u64, 1, 2, n_out.saturating_sub(1), n_out, n_out + 1, u32::MAX as u64, u64::MAX] { for sat in [0u64, 1, 5, 599, 600, 601, 900, 2500, 3000, u64::MAX] { grid.push((U256::from(vout), U256::from(sat))); } }
+            grid.push((U256::from(1u64) << 64, U256::from(5u64)));
+            grid.push((U256::from(0u64), (U256::from(1u64) << 64) + U256::from(5u64)));
+            grid.push((U256::MAX, U256::MAX));
+            grid.dedup();
+            if main.ins.len() > 10 || main.outs.len() > 10 { grid = vec![(U256::from(0u64), U256::from(0u64)), (U256::from(0u64), U256::from(main.outs[0].0)), (U256::from(1u64), U256::from(1u64)), (U256::from(n_out - 1), U256::from(0u64)), (U256::from(n_out), U256::from(0u64))]; }
+            for (vout, sat) in grid {
+                let data = getLastSatLocationCall::new((B256::from(k1), vout, sat)).abi_encode();
+                let o = e.rpc("eth_callMany", json!([[{"to": PC_LASTSAT, "data": hx0(&data)}], null, over.clone()]));
+                let dec = |b: &[u8]| getLastSatLocationCall::abi_decode_returns(b).ok().map(|r| vec![U256::from_be_bytes(r.last_txid.0).to_string(), r.last_vout.to_string(), r.last_sat.to_string()]);
+                match observe_pc(&o, dec) {
+                    Some(obs) => {
+                        let gas = sim::CALL_GAS_LIMIT - intrinsic_gas(&data);
+                        t.add("lastsat", |id| format!("CLastSat {} {} {} {} (Some ({}, {}, {})) {} {}", id, mode, gas, bn, key_n(&k1), vout, sat, coq_txs, cobs(&obs)), json!({"scenario": name, "vout": vout.to_string(), "sat": sat.to_string(), "obs": format!("{:?}", obs)}));
+                        if obs == PcObs::Panic { e = Eng::standard()?; }
+                    }
+                    None => t.notes.push(format!("getLastSatLocation {}: unclassified answer {}", name, o.brief())),
+                }
+            }
+        }
+        // undecodable input
+        for data in [vec![], getTxDetailsCall::new((B256::from(k1),)).abi_encode()[..20].to_vec()] {
+            let o = e.rpc("eth_call", json!([{"to": PC_TXDETAILS, "data": hx0(&data)}, null]));
+            if let Some(obs) = observe_pc(&o, |_| Some(vec![])) { let gas = sim::CALL_GAS_LIMIT - intrinsic_gas(&data); t.add("details", |id| format!("CDetails {} {} {} 1 None [] {}", id, mode, gas, cobs(&obs)), json!({"scenario": "undecodable"})); }
+            let o = e.rpc("eth_call", json!([{"to": PC_LASTSAT, "data": hx0(&data)}, null]));
+            if let Some(obs) = observe_pc(&o, |_| Some(vec![])) { let gas = sim::CALL_GAS_LIMIT - intrinsic_gas(&data); t.add("lastsat", |id| format!("CLastSat {} {} {} 1 None [] {}", id, mode, gas, cobs(&obs)), json!({"scenario": "undecodable"})); }
+        }
+    }
+    // BIP322_Verify
+    {
+        let g_unc = hex::decode("0479be667ef9dcbbac55a06295ce870b07029bfcdb2dce28d959f2815b16f81798483ada7726a3c4655da4fbfc0e1108a8fd17b448a68554199c47d08ffb10d4b8").unwrap();
+        let g_cmp = hex::decode("0279be667ef9dcbbac55a06295ce870b07029bfcdb2dce28d959f2815b16f81798").unwrap();
+        let mut der = vec![0x30u8, 0x44, 0x02, 0x20]; der.extend_from_slice(&[0x11; 32]); der.extend_from_slice(&[0x02, 0x20]); der.extend_from_slice(&[0x22; 32]); der.push(0x01);
+        // (script, kind) -- kind as the library classifies the script
+        let scripts: Vec<(Vec<u8>, Option<&str>)> = vec![
+            (pk.clone(), Some("AkP2tr")), (hex::decode("00142b05d564e6a7a33c087f16e0f730d1440123799d").unwrap(), Some("AkP2wpkh")),
+            (hex::decode("a9142b05d564e6a7a33c087f16e0f730d1440123799d87").unwrap(), Some("AkP2sh")),
+            (hex::decode("76a9142b05d564e6a7a33c087f16e0f730d1440123799d88ac").unwrap(), Some("AkOther")),
+            ({ let mut s = vec![0x00, 0x20]; s.extend_from_slice(&[0x33; 32]); s }, Some("AkOther")),
+            (vec![], None), (vec![0x6a], None), (vec![0x00, 0x14], None)];
+        // (witness elements or None = undecodable bytes, raw bytes, second element is a valid uncompressed key)
+        let enc = |els: &[Vec<u8>]| { let mut b = vec![els.len() as u8]; for e in els { b.push(e.len() as u8); b.extend_from_slice(e); } b };
+        let wits: Vec<(Option<Vec<Vec<u8>>>, Vec<u8>, bool)> = vec![
+            (None, vec![], false), (Some(vec![]), vec![0], false), (None, vec![1], false), (Some(vec![vec![]]), vec![1, 0], false),
+            (Some(vec![der.clone(), g_unc.clone()]), enc(&[der.clone(), g_unc.clone()]), true), (Some(vec![der.clone(), g_cmp.clone()]), enc(&[der.clone(), g_cmp.clone()]), false),
+            (Some(vec![der.clone(), vec![0x04; 65]]), enc(&[der.clone(), vec![0x04; 65]]), false), (Some(vec![vec![0x11; 64]]), enc(&[vec![0x11; 64]]), false),
+            (Some(vec![vec![0x11; 65]]), enc(&[vec![0x11; 65]]), false), (Some(vec![der.clone(), g_cmp.clone(), vec![]]), enc(&[der.clone(), g_cmp.clone(), vec![]]), false),
+            (Some(vec![vec![], g_unc.clone()]), enc(&[vec![], g_unc.clone()]), true), (Some(vec![der.clone()]), enc(&[der.clone()]), false), (None, vec![2, 5, 1, 2], false)];
+        for (sc, kind) in &scripts { for (w, raw, unc) in &wits {
+            let data = verifyCall::new((Bytes::from(sc.clone()), Bytes::from(b"Hello World".to_vec()), Bytes::from(raw.clone()))).abi_encode();
+            let o = e.rpc("eth_call", json!([{"to": PC_BIP322, "data": hx0(&data)}, null]));
+            let Some(obs) = observe_pc(&o, |_| Some(vec![])) else { t.notes.push(format!("BIP322_Verify: unclassified answer {}", o.brief())); continue };
+            let gas = sim::CALL_GAS_LIMIT - intrinsic_gas(&data);
+            let cw = match w { Some(els) => format!("(Some {})", cf::list(els, |x| cbytes(x))), None => "None".into() };
+            let ck = match kind { Some(k) => format!("(Some {})", k), None => "None".into() };
+            t.add("bip322", |id| format!("CBip {} {} {} true {} {} {} {}", id, gas, data.len(), ck, cw, cf::boolean(*unc), cobs(&obs)), json!({"script": hex::encode(sc), "witness": hex::encode(raw), "obs": format!("{:?}", obs)}));
+            if obs == PcObs::Panic { e = Eng::standard()?; }
+        } }
+        for data in [vec![], verifyCall::new((Bytes::from(pk.clone()), Bytes::new(), Bytes::new())).abi_encode()[..40].to_vec(), verifyCall::new((Bytes::from(pk.clone()), Bytes::from(vec![0x41; 40000]), Bytes::new())).abi_encode()] {
+            let o = e.rpc("eth_call", json!([{"to": PC_BIP322, "data": hx0(&data)}, null]));
+            if let Some(obs) = observe_pc(&o, |_| Some(vec![])) { let gas = sim::CALL_GAS_LIMIT - intrinsic_gas(&data); t.add("bip322", |id| format!("CBip {} {} {} false None None false {}", id, gas, data.len(), cobs(&obs)), json!({"len": data.len(), "obs": format!("{:?}", obs)})); }
+        }
+        let data = getTxIdCall::new(()).abi_encode();
+        let o = e.rpc("eth_call", json!([{"to": PC_OPRETURN, "data": hx0(&data)}, null]));
+        if let Some(obs) = observe_pc(&o, |_| Some(vec![])) { let gas = sim::CALL_GAS_LIMIT - intrinsic_gas(&data); t.add("opreturn", |id| format!("COpReturn {} {} {}", id, gas, cobs(&obs)), json!({"obs": format!("{:?}", obs)})); }
+    }
+    drop(e);
+
+    // ---- empty databases: brc20_mine, brc20_initialise ----
+    for (open, count) in [(false, 0u64), (false, 1), (false, 2), (false, 5), (true, 0), (true, 3)] {
+        let mut e = Eng::empty();
+        if open { let _ = e.rpc("brc20_deploy", json!([PK, "0x00", null, TS, h32(0), 0, "c09_tie_open0", 1000, h32(0)])); }
+        let _ = e.inst.events();
+        let o = e.rpc("brc20_mine", json!([count, TS]));
+        let calls = db_write_sections(&e.inst.events());
+        if o.class() <= 2 { t.add("mine", |id| format!("CMine {} {} true {} 0 {} {} {}", id, mode, cf::boolean(open), count, o.class(), calls), json!({"empty": true, "open": open, "count": count, "class": o.class(), "calls": calls})); }
+        if o.is_fatal() { std::mem::forget(e); }
+    }
+    for hz in [true, false] { for height in [0u64, 1, 2, u64::MAX - 1, u64::MAX] {
+        let mut e = Eng::empty();
+        let o = e.rpc("brc20_initialise", json!([if hz { h32(0) } else { h32(0xabc) }, TS, height]));
+        let p = matches!(o, Out::Panic(_));
+        t.add("init", |id| format!("CInit {} {} {} {} {}", id, mode, cf::boolean(hz), height, cf::boolean(p)), json!({"hash_zero": hz, "height": height, "brief": o.brief()}));
+        if o.is_fatal() { std::mem::forget(e); }
+    } }
+    vh::set_lock_recording(false);
+    Ok(t)
+}
+
+
+const TIE_IMPORTS: &str = "From Brc.Model Require Import Base Base64 Nada Payload Logs ReadSlot Requests Tie09.\nFrom BrcGen Require Import Consts.";
+const TIE_EVAL: &str = "bad09 GAS_PER_BITCOIN_RPC_CALL GAS_PER_LOCKED_PKSCRIPT GAS_PER_BIP_322_VERIFY GAS_PER_OP_RETURN_TX_ID CALLDATA_LIMIT";
+
+/// `hx c09-tie --out DIR --name NAME --base N`: the component tie of this binary's profile, as JSON
+pub fn tie_main(args: &[String], out: &Path, seed: u64, thorough: bool) -> R<()> {
+    let arg = |n: &str| args.iter().position(|a| a == n).and_then(|i| args.get(i + 1).cloned());
+    let name = arg("--name").unwrap_or_else(|| "dev".into());
+    let base: u64 = arg("--base").and_then(|s| s.parse().ok()).unwrap_or(0);
+    let t = tie_cases(seed, thorough, base)?;
+    std::fs::write(out.join(format!("c09_tie_{}.json", name)), serde_json::to_string(&json!({"terms": t.terms, "jsonl": t.jsonl, "counters": t.counters, "distinct": t.distinct.len(), "notes": t.notes}))?)?;
+    if arg("--shards").is_some() {
+        let files = cf::write_shards(out, &format!("c09_cases_{}", name), TIE_IMPORTS, "case09", TIE_EVAL, &t.terms, 16)?;
+        println!("{:?} {:?} notes {:?}", files, t.counters, t.notes);
+    }
+    Ok(())
+}
+
+
+// ------------------------------------------------------------------------------------------
+// the parent: tie + stream workers + measurements + (thorough) the release profile
+// ------------------------------------------------------------------------------------------
+
+fn normalise(msg: &str) -> String {
+    // strip machine-specific prefixes of source paths
+    let mut m = msg.to_string();
+    while let Some(i) = m.find("/root/.cargo/registry/src/") {
+        let rest = &m[i + "/root/.cargo/registry/src/".len()..];
+        let cut = rest.find('/').map(|j| j + 1).unwrap_or(0);
+        m = format!("{}{}", &m[..i], &rest[cut..]);
+    }
+    for pre in ["/tmp/rw-c09/", "/repo/"] { m = m.replace(pre, ""); }
+    m
+}
+
+struct StreamSummary { cases: u64, classes: BTreeMap<String, u64>, by_method: BTreeMap<String, u64>, env: u64, failures: Vec<(String, Value)>, restarts: u64, seconds: f64, slowest: Vec<Value> }
+
+/// Runs the stream in worker processes of `exe`, restarting behind a hang or an abort.
+fn run_stream(exe: &Path, out: &Path, seed: u64, thorough: bool, name: &str) -> R<StreamSummary> {
+    let t0 = Instant::now();
+    let path = out.join(format!("c09_stream_{}.jsonl", name));
+    let _ = std::fs::remove_file(&path);
+    let total = stream_cases(seed, thorough).len() as u64;
+    let mut from = 0u64;
+    let mut restarts = 0u64;
+    let mut aborted: Vec<(u64, i32)> = vec![];
+    while from < total {
+        let st = std::process::Command::new(exe).args(["c09-stream", "--out"]).arg(out).args(["--seed", &seed.to_string(), "--tier", if thorough { "thorough" } else { "quick" }, "--name", name, "--from", &from.to_string()])
+            .stdout(std::process::Stdio::null()).stderr(std::process::Stdio::null()).status()?;
+        if st.success() { break; }
+        restarts += 1;
+        let text = std::fs::read_to_string(&path).unwrap_or_default();
+        let mut last_start = None; let mut last_done = None;
+        for l in text.lines() { if let Ok(v) = serde_json::from_str::<Value>(l) { if let Some(s) = v["start"].as_u64() { last_start = Some(s); } if let Some(i) = v["id"].as_u64() { last_done = Some(i); } } }
+        let Some(ls) = last_start else { return Err(format!("stream worker {} died before its first case ({:?})", name, st.code()).into()); };
+        if last_done != Some(ls) { aborted.push((ls, st.code().unwrap_or(-1))); }
+        from = ls + 1;
+        if restarts > 200 { return Err("stream worker restarted more than 200 times".into()); }
+    }
+    let cases = stream_cases(seed, thorough);
+    let text = std::fs::read_to_string(&path).unwrap_or_default();
+    let mut sum = StreamSummary { cases: 0, classes: BTreeMap::new(), by_method: BTreeMap::new(), env: 0, failures: vec![], restarts, seconds: 0.0, slowest: vec![] };
+    let mut recs: Vec<Value> = vec![];
+    for l in text.lines() { if let Ok(v) = serde_json::from_str::<Value>(l) { if v.get("id").is_some() { recs.push(v); } } }
+    for (id, code) in aborted {
+        let c = &cases[id as usize];
+        sum.failures.push((format!("{} [{}]: the process died (exit code {}) while serving the request: neither an answer nor a caught panic", c.method, name, code), json!({"id": id, "kind": c.kind, "method": c.method, "params": brief_params(&c.params), "profile": name})));
+    }
+    for r in &recs {
+        sum.cases += 1;
+        let class = r["class"].as_str().unwrap_or("?").to_string();
+        *sum.classes.entry(class.clone()).or_insert(0) += 1;
+        *sum.by_method.entry(r["method"].as_str().unwrap_or("?").to_string()).or_insert(0) += 1;
+        let brief = r["brief"].as_str().unwrap_or("");
+        let kind = r["kind"].as_str().unwrap_or("");
+        let method = r["method"].as_str().unwrap_or("");
+        let live = r["live"].as_str();
+        let is_env = class == "Panic" && brief.contains("Bitcoin RPC unreachable");
+        if is_env { sum.env += 1; continue; }
+        let case = json!({"id": r["id"], "kind": kind, "method": method, "params": r["params"], "answer": normalise(brief), "probe": live, "profile": name, "ms": r["ms"]});
+        let what = if kind.starts_with("known_f15") && class == "Hang" {
+            Some(format!("F15-class: brc20_mine(n) has no cap: brc20_mine(18446744073709551615) did not answer within the watchdog time [{}]", name))
+        } else if kind.starts_with("known_f18") && class == "Hang" {
+            Some(format!("F18-class: the gas limit of an indexer transaction is inscription_byte_len * 12000 (saturating) with no cap: a spinning contract deployed with inscription_byte_len = u64::MAX did not answer within the watchdog time [{}]", name))
+        } else if class == "Panic" {
+            Some(format!("{} [{}]: panic: {}{}", method, name, normalise(brief.trim_start_matches("Panic ")), match live { Some(l) => format!(" -- engine wedged afterwards ({})", normalise(l)), None => String::new() }))
+        } else if class == "Hang" {
+            Some(format!("{} [{}]: no answer within the watchdog time (hang)", method, name))
+        } else if let Some(l) = live {
+            Some(format!("{} [{}]: answered {} but the liveness probe fails afterwards: {}", method, name, class, normalise(l)))
+        } else { None };
+        if let Some(w) = what { sum.failures.push((w, case)); }
+    }
+    let mut by_ms: Vec<&Value> = recs.iter().collect();
+    by_ms.sort_by(|a, b| b["ms"].as_f64().partial_cmp(&a["ms"].as_f64()).unwrap_or(std::cmp::Ordering::Equal));
+    sum.slowest = by_ms.iter().take(5).map(|r| json!({"kind": r["kind"], "method": r["method"], "ms": r["ms"], "class": r["class"]})).collect();
+    sum.seconds = t0.elapsed().as_secs_f64();
+    Ok(sum)
+}
+
+/// F15 / F17: cost of brc20_mine(n) and eth_estimateGasMany(n calls) against n
+fn measurements() -> R<(Vec<(String, Value)>, Value)> {
+    let mut fails = vec![];
+    let mut e = Eng::standard()?;
+    let mut mine = vec![];
+    for n in [50u64, 100, 200] {
+        let t = Instant::now();
+        let o = e.rpc("brc20_mine", json!([n, TS]));
+        mine.push((n, t.elapsed().as_secs_f64() * 1000.0, o.class_name()));
+    }
+    let per_block = mine.last().map(|x| x.1 / x.0 as f64).unwrap_or(0.0);
+    let linear = mine.iter().all(|x| x.2 == "Ok") && mine[2].1 > 1.5 * mine[1].1.max(0.001) * 0.8;
+    if linear {
+        fails.push((format!("F15-class: brc20_mine(n) has no cap and is linear in n: {} blocks {:.0} ms, {} blocks {:.0} ms, {} blocks {:.0} ms ({:.2} ms per block in this profile); the engine serves nothing else meanwhile", mine[0].0, mine[0].1, mine[1].0, mine[1].1, mine[2].0, mine[2].1, per_block),
+            json!({"method": "brc20_mine", "params": [18446744073709551615u64, TS], "extrapolated_seconds": per_block * 1.8446744e19 / 1000.0})));
+    }
+    let mut est = vec![];
+    for n in [25usize, 50, 100] {
+        let calls: Vec<Value> = (0..n).map(|_| json!({"data": "0x"})).collect();
+        let t = Instant::now();
+        let o = e.rpc("eth_estimateGasMany", json!([calls, null, null]));
+        est.push((n, t.elapsed().as_secs_f64() * 1000.0, o.class_name()));
+    }
+    let quadratic = est.iter().all(|x| x.2 == "Ok") && est[2].1 > 2.8 * est[1].1.max(0.001);
+    if quadratic {
+        fails.push((format!("F17-class: eth_estimateGasMany with n calls performs about n * log2(gas limit / 12000) batch executions of n calls each (quadratic): {} calls {:.0} ms, {} calls {:.0} ms, {} calls {:.0} ms; unauthenticated, n is bounded only by the request size", est[0].0, est[0].1, est[1].0, est[1].1, est[2].0, est[2].1),
+            json!({"method": "eth_estimateGasMany", "params": ["[{\"data\":\"0x\"} x n]", null, null]})));
+    }
+    Ok((fails, json!({"brc20_mine_ms": mine.iter().map(|x| json!({"n": x.0, "ms": x.1})).collect::<Vec<_>>(), "eth_estimateGasMany_ms": est.iter().map(|x| json!({"n": x.0, "ms": x.1})).collect::<Vec<_>>() })))
+}
+
+pub fn run(out: &Path, seed: u64, thorough: bool) -> R<()> {
+    let t_start = Instant::now();
+    let exe = std::env::current_exe()?;
+
+    // (a) component tie, this profile
+    let mut tie = tie_cases(seed, thorough, 0)?;
+    let t_tie = t_start.elapsed().as_secs_f64();
+    let (mfails, measured) = measurements()?;
+
+    // (b) the stream, this profile
+    let dev = run_stream(&exe, out, seed, thorough, "dev")?;
+
+    // thorough: the release profile (overflow checks off, as shipped)
+    let mut release: Option<StreamSummary> = None;
+    let mut release_note = Value::Null;
+    if thorough {
+        let manifest = PathBuf::from(env!("CARGO_MANIFEST_DIR"));
+        let tb = Instant::now();
+        let st = std::process::Command::new("cargo").args(["build", "--offline", "--release"]).current_dir(&manifest)
+            .stdout(std::process::Stdio::null()).stderr(std::process::Stdio::null()).status()?;
+        let rexe = exe.parent().and_then(|p| p.parent()).map(|p| p.join("release").join("hx")).ok_or("release path")?;
+        if !st.success() || !rexe.exists() { return Err("cargo build --release of the harness failed".into()); }
+        let build_s = tb.elapsed().as_secs_f64();
+        let st = std::process::Command::new(&rexe).args(["c09-tie", "--out"]).arg(out).args(["--seed", &seed.to_string(), "--tier", "thorough", "--name", "release", "--base", "10000000"]).status()?;
+        if !st.success() { return Err("release tie run failed".into()); }
+        let rt: Value = serde_json::from_str(&std::fs::read_to_string(out.join("c09_tie_release.json"))?)?;
+        for x in rt["terms"].as_array().cloned().unwrap_or_default() { tie.terms.push(x.as_str().unwrap_or("").to_string()); }
+        for x in rt["jsonl"].as_array().cloned().unwrap_or_default() { tie.jsonl.push(x); }
+        for (k, v) in rt["counters"].as_object().cloned().unwrap_or_default() { *tie.counters.entry(format!("release_{}", k)).or_insert(0) += v.as_u64().unwrap_or(0); }
+        for n in rt["notes"].as_array().cloned().unwrap_or_default() { tie.notes.push(format!("release: {}", n.as_str().unwrap_or(""))); }
+        let r = run_stream(&rexe, out, seed, thorough, "release")?;
+        release_note = json!({"build_seconds": build_s, "cases": r.cases, "classes": r.classes, "restarts_after_hang_or_abort": r.restarts, "environment_faults": r.env, "seconds": r.seconds});
+        release = Some(r);
+    }
+
+    // failures: one entry per distinct `what`, the smallest case kept
+    let mut agg: BTreeMap<String, (u64, Value)> = BTreeMap::new();
+    let mut all: Vec<(String, Value)> = mfails;
+    all.extend(dev.failures.iter().cloned());
+    if let Some(r) = &release { all.extend(r.failures.iter().cloned()); }
+    for (w, c) in all {
+        let e = agg.entry(w).or_insert((0, c.clone()));
+        e.0 += 1;
+        if c.to_string().len() < e.1.to_string().len() { e.1 = c; }
+    }
+    let failures: Vec<Value> = agg.iter().map(|(w, (n, c))| json!({"what": w, "occurrences": n, "case": c})).collect();
+
+    let shards = ((tie.terms.len() + 899) / 900).max(16);
+    let files = cf::write_shards(out, "c09_cases", TIE_IMPORTS, "case09", TIE_EVAL, &tie.terms, shards)?;
+    let mut f = std::fs::File::create(out.join("c09_cases.jsonl"))?;
+    for j in &tie.jsonl { writeln!(f, "{}", j)?; }
+    let samples: Vec<Value> = tie.jsonl.iter().filter(|j| matches!(j["kind"].as_str(), Some("lastsat") | Some("locked") | Some("bisect") | Some("mine"))).step_by(211).take(5).cloned().collect();
+    let names = method_names();
+    let meta = json!({
+        "files": files,
+        "evaluations": tie.terms.len() as u64 + dev.cases + release.as_ref().map(|r| r.cases).unwrap_or(0),
+        "distinct_nontrivial": tie.distinct.len(),
+        "rule": "component tie: every function of Model/Requests.v on generated inputs (UTF-8 validity: boundary bytes in every position up to length 4 + random; from_str_radix: every ASCII char, sign/digit combinations, values around 2^64 in both radices, random digit strings; parse_block_number / tx count / getLogs range through the real handlers with every tag string incl. multi-byte and oversized ones; brc20_mine and brc20_initialise on empty and initialised engines; the bisection against the number of executions recorded by the lock hook; the five custom precompiles through eth_call / eth_callMany with ABI-valid and invalid data and every referenced Bitcoin transaction overridden); a case is non-trivial when its input is non-empty, distinct = distinct (kind, input). Stream: every registered method x (junk shapes, wrong arity, every position x boundary / malformed / ill-typed values around a well-formed baseline), arbitrary bytes as init code / runtime code / call data on the write and read paths, precompile calls direct / through a contract / on the write path, Bitcoin transaction overrides (valid, truncated, garbage, mutated); each request is followed by the liveness probe (eth_blockNumber, eth_getBlockByNumber, an EVM read of a known storage slot, brc20_mine(1) with the height checked).",
+        "tie_case_kinds": tie.counters,
+        "tie_notes": tie.notes,
+        "tie_seconds": t_tie,
+        "registered_methods": names.len(),
+        "methods_without_signature_recipe": names.iter().filter(|m| schema(m).is_none()).collect::<Vec<_>>(),
+        "stream_dev": {"cases": dev.cases, "classes": dev.classes, "requests_per_method": dev.by_method, "restarts_after_hang_or_abort": dev.restarts, "environment_faults_no_bitcoin_node": dev.env, "seconds": dev.seconds, "slowest": dev.slowest},
+        "stream_release": release_note,
+        "measurements": measured,
+        "overflow_checks": if overflow_checks_on() { "on (dev profile)" } else { "off" },
+        "harness_seconds": t_start.elapsed().as_secs_f64(),
+        "samples": samples,
+        "impl_failures": failures,
+    });
+    std::fs::write(out.join("c09_meta.json"), serde_json::to_string_pretty(&meta)?)?;
+    Ok(())
+}
